@@ -61,6 +61,10 @@ ANCHORS = [
     ("log2MaxShards", ["src/func/vbuilder.rs"], r"const LOG2_MAX_SHARDS: u32 = (\d+);", num, 1, "log2 of the maximum number of shards"),
     ("dupRetries", ["src/func/vbuilder.rs"], r"if dup_count >= (\d+) \{", num, 1, "retries on duplicate signatures"),
     ("localDupRetries", ["src/func/vbuilder.rs"], r"if local_dup_count >= (\d+) \{", num, 1, "retries on duplicate local signatures"),
+    # D34: the bound on consecutive `MaxShardTooBig` retries under `check_dups`, inside `build_loop`
+    ("maxShardTooBigRetries", ["src/func/vbuilder.rs"],
+     r"fn build_loop\b(?:(?!\n    fn ).)*?SolveError::MaxShardTooBig => \{(?:(?!SolveError::).)*?if self\.check_dups && max_shard_count >= (\d+) \{",
+     num, 1, "retries on an oversized maximum shard when duplicate checking is on (then DuplicateKey)"),
     ("maxNoLocalSigCheckLog2", ["src/func/vbuilder.rs"], r"const MAX_NO_LOCAL_SIG_CHECK: usize = 1 << (\d+);", num, 1, "log2 of the key count above which local signatures are deduplicated"),
     ("mixMul1", ["src/func/mod.rs"], r"k = k\.overflowing_mul\((0x[0-9a-f_]+)\)\.0;\s*k \^= k >> 33;\s*k = k\.overflowing_mul", num, 1, "first multiplier of mix64"),
     ("mixMul2", ["src/func/mod.rs"], r"k \^= k >> 33;\s*k = k\.overflowing_mul\((0x[0-9a-f_]+)\)\.0;\s*k \^= k >> 33;\s*k\s*\}", num, 1, "second multiplier of mix64"),
